@@ -745,3 +745,74 @@ func ruleCutFoundNotRefused(id string) func(*Checker) {
 		_ = n
 	}
 }
+
+// ruleC19SameFile — what a dereferenced link's body is read from is the file that was examined.
+func ruleC19SameFile(c *Checker) {
+	const R = "C19.samefile"
+	c.rule(R, "Where the Pack walk turns a link entry into a regular-file entry (the store of tar.TypeReg into the header of a symlink), the regular-file verdict comes from the resolver, which follows the chain of links as it is spelled; the body is read by opening the link, which the kernel resolves physically — through a directory that is itself a link, `dir/../x` is another file. The conversion therefore lies behind the true edge of os.SameFile(os.Stat(<the path that is opened>), <the resolver's info>): otherwise a fifo can be opened that was never examined (Pack blocks forever, F50), or the header describes one file and the body comes from another.", 1)
+	p := c.P
+	n := 0
+	for _, fn := range p.Funcs {
+		if fn.Package() == nil || fn.Package().Pkg.Path() != p.PkgPath("slug") {
+			continue
+		}
+		var opens []*ssa.Call
+		for _, ci := range callsTo(fn, func(o *types.Func) bool { return isFunc(o, "os", "Open") }) {
+			if cl, ok := ci.(*ssa.Call); ok {
+				opens = append(opens, cl)
+			}
+		}
+		if len(opens) == 0 {
+			continue
+		}
+		// conversions: the constant tar.TypeReg ('0') stored into a header's Typeflag behind an is-a-link test
+		isLink, _ := symlinkEdges(fn, nil)
+		eachInstr(fn, func(in ssa.Instruction) {
+			st, ok := in.(*ssa.Store)
+			if !ok {
+				return
+			}
+			fa, ok := st.Addr.(*ssa.FieldAddr)
+			if !ok || fieldOf(fa) == nil || fieldOf(fa).Name() != "Typeflag" || !isHeaderType(fa.X.Type()) {
+				return
+			}
+			if k, isC := constInt(st.Val); !isC || k != '0' {
+				return
+			}
+			if len(isLink) == 0 || !guarded(st.Block(), isLink) {
+				return // an entry that is a regular file to begin with
+			}
+			n++
+			var sameT []Edge
+			for _, ci := range callsTo(fn, func(o *types.Func) bool { return isFunc(o, "os", "SameFile") }) {
+				cl, ok := ci.(*ssa.Call)
+				if !ok {
+					continue
+				}
+				fromOpened := false
+				for _, a := range cl.Call.Args {
+					ex, ok := canon(a).(*ssa.Extract)
+					if !ok || ex.Index != 0 {
+						continue
+					}
+					scl, ok := ex.Tuple.(*ssa.Call)
+					if !ok || !isFunc(calleeObj(scl), "os", "Stat") {
+						continue
+					}
+					for _, op := range opens {
+						if sameLoc(scl.Call.Args[0], op.Call.Args[0]) || canon(scl.Call.Args[0]) == canon(op.Call.Args[0]) {
+							fromOpened = true
+						}
+					}
+				}
+				if !fromOpened {
+					continue
+				}
+				t, _ := boolEdges(fn, cl)
+				sameT = append(sameT, t...)
+			}
+			c.check(len(sameT) > 0 && guarded(st.Block(), sameT), R, p.FuncName(fn), "dereferenced link: the file opened is the file examined", p.Pos(st.Pos()), "behind os.SameFile(os.Stat(path), resolved info)", "a link is turned into a regular-file entry on the resolver's word alone: what os.Open(path) reaches can be another file than the one the resolver examined (a target spelled through a directory link) — a fifo there blocks Pack forever")
+		})
+	}
+	c.check(n > 0, R, "-", "conversion site found", "-", fmt.Sprintf("%d site(s)", n), "no site turns a link entry into a regular-file entry any more")
+}
